@@ -122,3 +122,36 @@ func VerifC04_CompiledLoopStops() {
 	zzverif.Assert(rec.status >= 500, "endless-compiled-route-not-5xx")
 	zzverif.Reach("compiled-loop")
 }
+
+// A route whose result JSON cannot carry (NaN, +Inf: parseFloat("NaN"),
+// parseFloat("1e308") * 10.0) fails as a request: through the real setupRoutes +
+// createHandler the client gets a 5xx with the generic body, whatever status
+// the route attached to the value - never a 2xx status line followed by an
+// error body.
+func VerifC04_UnencodableResult() {
+	exprs := []string{`parseFloat("NaN")`, `parseFloat("1e308") * 10.0`, `{ok: true, v: [1.5, parseFloat("NaN")]}`, `1.5`}
+	k := zzverif.Choice("value", len(exprs))
+	status := []string{"", " :: 200", " :: 201", " :: 202"}[zzverif.Choice("status", 4)]
+	interpreted := zzverif.Bool("interpreted")
+	module, err := parseSource("@ GET /t {\n  > " + exprs[k] + status + "\n}\n")
+	if err != nil {
+		panic("harness program does not parse: " + err.Error())
+	}
+	_, _, _, router, err := setupRoutes(module, "/app/main.glyph", interpreted)
+	if err != nil {
+		zzverif.Fail("setupRoutes rejected a valid program")
+	}
+	rec := &zzRec{}
+	createHandler(router)(rec, &http.Request{Method: "GET", Header: http.Header{}, URL: &url.URL{Path: "/t"}, RemoteAddr: "10.0.0.1:1"})
+	mode := "compiled"
+	if interpreted {
+		mode = "interpreted"
+	}
+	name := mode + " > " + exprs[k] + status
+	if k == len(exprs)-1 {
+		zzverif.Assert(rec.status >= 200 && rec.status < 300, "encodable result not answered 2xx: "+name)
+	} else {
+		zzverif.Assert(rec.status >= 500 && rec.status <= 599, "a result JSON cannot carry is not reported as 5xx: "+name)
+	}
+	zzverif.Reach("unencodable")
+}
